@@ -18,11 +18,34 @@ Clause(c) ==
     ELSE IF RefCmdSays(c).said /\ ~IsConcat(c.kind) THEN "viol:CommandLineValueWins"
     ELSE "viol:LayeringFollowsDocs"
 
-Verdict(o) ==
+\* o.mutated: the stored instances of the looked-up options (or the class defaults) differed after the
+\* lookup(s) from what they were before.  Every later lookup reads those stored instances, so a changed
+\* configuration is a violation in its own right ("lookups do not change the configuration"), whether or
+\* not one of the recorded lookups already shows a wrong value.  o.cmdinsts is recorded BEFORE any lookup.
+SingleVerdict(o) ==
     IF o.real # RefLookup(o.case) THEN Clause(o.case)
+    ELSE IF o.mutated THEN "viol:LookupsDoNotChangeConfiguration"
     ELSE IF o.real # ImplLookup(o.case) THEN "drift:ImplLookup"
     ELSE IF o.case.bad = "none" /\ o.cmdinsts # ImplCmdValues(o.case) THEN "drift:ImplCmdInsts"
     ELSE "ok"
+
+\* A history: o.real is the sequence of the values of the lookups, in order, on ONE real Options object.
+\* o.asset = TRUE (observations through the diagnostics of a real run over several files): the values are
+\* only known as sets.
+SetOf(s) == {s[i] : i \in 1..Len(s)}
+SameValue(o, a, b) == IF o.asset THEN SetOf(a) = SetOf(b) ELSE a = b
+HistoryVerdict(o) ==
+    LET ref == RefRunValues(o.case)
+        impl == ImplRunValues(o.case)
+        wrong == {i \in 1..Len(ref) : i > Len(o.real) \/ ~SameValue(o, o.real[i], ref[i])}
+    IN IF Len(o.real) # Len(ref) THEN "viol:LayeringFollowsDocs"
+       ELSE IF 1 \in wrong THEN "viol:LayeringFollowsDocs"               \* wrong on a fresh object
+       ELSE IF wrong # {} THEN "viol:LookupIndependentOfHistory"          \* right at first, wrong after other lookups
+       ELSE IF o.mutated THEN "viol:LookupsDoNotChangeConfiguration"
+       ELSE IF \E i \in 1..Len(ref) : ~SameValue(o, o.real[i], impl[i]) THEN "drift:ImplRun"
+       ELSE "ok"
+
+Verdict(o) == IF o.case.lookups # << >> THEN HistoryVerdict(o) ELSE SingleVerdict(o)
 
 TInit == l = 1 /\ case = Blank /\ stage = "trace" /\ n = 0
 TNext ==
